@@ -566,7 +566,7 @@ def gen_histories(w: World, seed, tier, budget, sizes):
         size = sizes[a]
         lengths = list(range(size + 1))
         if not thorough and size > 400:
-            step = max(1, size // 150)
+            step = max(1, size // 60)
             lengths = sorted(set(range(0, size + 1, step)) | {size - 1, size, 1, 2})
             lengths += [rng.randrange(size) for _ in range(10)]
         for n in lengths:
@@ -613,7 +613,7 @@ def gen_histories(w: World, seed, tier, budget, sizes):
     inits = [[], ["valid_other"], ["half"], ["legacy_own"]]
     for a, b in conc_pairs:
         for init in inits:
-            scheds = inter2 if thorough else rng.sample(inter2, 10)
+            scheds = inter2 if thorough else rng.sample(inter2, 8)
             for sc in scheds:
                 pre = [{"op": "put", "e": P[a], "kind": k, "src": P[b]} for k in init]
                 add("concurrent2", pre + [{"op": "conc", "es": [P[a], P[b]], "sched": sc}, call(a), call(b)])
